@@ -13,7 +13,7 @@ CHECKS = {
    ref="4/C09"),
  "C13": dict(
    technique="static analysis: all-paths make/unmake balance with return kinds (Ok/Err/?) over MIR; roll-back idiom and error-arm write-set checks",
-   text="Every path of every board-crate function that probes a move is explored with the outstanding-make count and the kind of return; an Err/? return with a move still made is reported with its witness path. make_uci's +1-on-Ok contract, make_all_uci's roll-back loop and the position-replay caller's error arm are checked structurally. Decides the no-side-effect clause for every input at once; does not decide that acceptance equals legality.",
+   text="Every path of every board-crate function that probes a move is explored with the outstanding-make count and the kind of return; an Err/? return with a move still made is reported with its witness path. make_uci's +1-on-Ok contract, make_all_uci's roll-back loop and the position-replay caller's error arm are checked structurally. R5: the selection predicate consults source, target and promotion on every accepting path. R6: find_uci / uci_to_pgn answer Ok only on paths that made the move and found it valid. Decides the no-side-effect clause for every input at once and the structural half of 'acceptance equals legality'; text-level exactness of a hand-written move-text parser is not decided.",
    note="Trusted: rustc MIR + callee resolution, the extractor, the exploration. Assumes make/unmake are exact inverses (C03) and that &self helpers do not mutate (enforced by the borrow checker).",
    ref="4/C13"),
  "C07": dict(
@@ -28,7 +28,7 @@ CHECKS = {
    ref="4/C12"),
  "C15": dict(
    technique="static analysis: panic-site inventory over the resolved call graph of the UCI command parser and move parser; keyword/token set agreement on evaluated constants and match arms",
-   text="Decides 'no input line makes the parser panic' up to reviewed guard arguments: every overflow/bounds assert, unwrap, index, RefCell borrow reachable from CommandParser::{new,parse}, UciMove::from_str/fmt is auto-discharged or reviewed by exact key. Structural clauses of faithful parsing (dispatch set, GO_TOKENS = arms, duplicate detection). R7: numeric tokens are accepted only through str::parse. R8: no function reachable from the command or move-text parser narrows a char to 8/16 bits (non-ASCII letters cannot alias a..h). Does not decide numeric value faithfulness beyond that.",
+   text="Decides 'no input line makes the parser panic' up to reviewed guard arguments: every overflow/bounds assert, unwrap, index, RefCell borrow reachable from CommandParser::{new,parse}, UciMove::from_str/fmt is auto-discharged or reviewed by exact key. Structural clauses of faithful parsing (dispatch set, GO_TOKENS = arms, duplicate detection). R7: numeric tokens are accepted only through str::parse. R8: no function reachable from the command or move-text parser narrows a char to 8/16 bits (non-ASCII letters cannot alias a..h). R9: setoption takes the name up to the token `value` and the value to the end of the line. Does not decide numeric value faithfulness beyond that.",
    note="Trusted: rustc MIR, extractor, reviewed guard arguments, panic API list; both profiles differ only in the arithmetic asserts, which are judged in the dev/test profile (the one in which they exist).",
    ref="4/C15"),
  "C03": dict(
@@ -43,12 +43,12 @@ CHECKS = {
    ref="4/C10"),
  "C14": dict(
    technique="static analysis: backward slice (data + control dependence) on MIR from the '#' constant to the in-check test; reader/writer letter-table agreement",
-   text="Decides that the SAN writer's '#' suffix depends on an in-check test evaluated on the position after the move (so stalemate cannot be written as mate), that '+' depends on it too, and structural agreement of reader and writer. R4: disambiguation candidates are legal moves. R5: the writer's disambiguation decision table (extracted from all paths, predicates classified by what their closures compare) equals the SAN rule: nothing / file / rank / both.",
+   text="Decides that the SAN writer's '#' suffix depends on an in-check test evaluated on the position after the move (so stalemate cannot be written as mate), that '+' depends on it too, and structural agreement of reader and writer. R4: disambiguation candidates are legal moves. R1 also: the in-check test runs on every path that writes a move. R6: the SAN pattern has a named group for every component, the reader asks only for names the pattern defines, and takes no decision on the whole-match text. R5: the writer's disambiguation decision table (extracted from all paths, predicates classified by what their closures compare) equals the SAN rule: nothing / file / rank / both.",
    note="Trusted: rustc MIR, the extractor, the slicer (over-approximating; used only for must-depend).",
    ref="4/C14"),
  "C19": dict(
    technique="static analysis: compiler-evaluated serde FIELDS/VARIANTS constants (after macro expansion) compared with the documented wire names",
-   text="Decides the name-level necessary conditions of decoding: tag sets of both message enums equal the documented ones, both are tagged by 'type', no accepted wire name is snake_case or capitalised, the state record accepts the clock/increment/status/moves keys, every enumerated key set equals the documented wire keys, and - R5 - the move string is split on ' ' and every token collected in order (no dropping/truncating/reordering adaptor; a filter only for empty tokens). Does not decide value decoding, escapes or optional-field behaviour.",
+   text="Decides the name-level necessary conditions of decoding: tag sets of both message enums equal the documented ones, both are tagged by 'type', no accepted wire name is snake_case or capitalised, the state record accepts the clock/increment/status/moves keys, every enumerated key set equals the documented wire keys, and - R5 - the move string is split on ' ' and every token collected in order (no dropping/truncating/reordering adaptor; a filter only for empty tokens); R6: no derived deserializer demands the presence of a field declared Option<..>. Does not decide value decoding, escapes or optional-field behaviour.",
    note="Trusted: rustc const evaluation, serde_derive's convention of emitting FIELDS/VARIANTS, the spec table quoted from the property statement.",
    ref="4/C19"),
  "C04": dict(
@@ -80,7 +80,7 @@ CHECKS = {
    ref="4/C05"),
  "C16": dict(
    technique="static analysis: who-may-call over resolved callees for stdout, decoded format_args templates and string constants at every transmitter call site, control-dependence comparison of the PV/bestmove assignments",
-   text="Decides that only the binary's print function writes stdout (as the transmitter's consumer, plus one banner call), that every line kind the console transmitter can emit starts with a UCI engine-to-GUI keyword with the right message keyword per trait method, that info keys are UCI keys, unique, `string` last, scores cp/mate with lowerbound/upperbound, 0000 only for None, that bestmove, reported PV and stored PV are assigned under the same condition, that every info line reads `nodes` from one counter restarted by every go, and - R5 - that the origin of the reported `time` is written only where a search starts (go / best_move before the iteration loop), never by anything reachable while the search runs; R6: the ponder move is read from the stored PV only when this search produced an answer. These are necessary conditions of monotone nodes/time; monotone depth and PV legality are not decided.",
+   text="Decides that only the binary's print function writes stdout (as the transmitter's consumer, plus one banner call), that every line kind the console transmitter can emit starts with a UCI engine-to-GUI keyword with the right message keyword per trait method, that info keys are UCI keys, unique, `string` last, scores cp/mate with lowerbound/upperbound, 0000 only for None, that bestmove, reported PV and stored PV are assigned under the same condition, that every info line reads `nodes` from one counter restarted by every go and only the iteration report carries a depth, and - R5 - that the origin of the reported `time` is written only where a search starts (go / best_move before the iteration loop), never by anything reachable while the search runs; R6: the ponder move is read from the stored PV only when this search produced an answer. These are necessary conditions of monotone nodes/time; monotone depth and PV legality are not decided.",
    note="Trusted: rustc MIR, the extractor's constant decoding, the template decoder for this nightly's format_args lowering (undecodable templates fail closed as anchor lost).",
    ref="4/C16"),
  "C18": dict(
